@@ -53,6 +53,18 @@ def load_seeded(prop=None):
     return out
 
 
+def load_neutral_patches(prop=None):
+    """Behaviour-preserving refactorings filed under /verif/neutral/<id>/ (patch.diff + meta.json with the properties to run)."""
+    out = []
+    for meta in sorted(glob.glob(os.path.join(VERIF, "neutral", "*", "meta.json"))):
+        with open(meta) as fh:
+            m = json.load(fh)
+        d = os.path.dirname(meta)
+        if prop is None or prop in (m.get("props") or []):
+            out.append({"id": "neutral/" + os.path.basename(d), "patch": os.path.join(d, "patch.diff"), "kind": "neutral"})
+    return out
+
+
 def _scratch(repo_root):
     base = tempfile.mkdtemp(prefix="sa-selftest-")
     shutil.copytree(os.path.join(repo_root, PKG), os.path.join(base, PKG),
@@ -100,11 +112,11 @@ def _run_one(job):
     from .main import run_property
     base = _scratch(repo_root)
     try:
-        if kind == "seeded":
+        if kind in ("seeded", "neutralpatch"):
             r = subprocess.run(["patch", "-p1", "-s", "-d", base, "-i", v["patch"]], capture_output=True, text=True)
             if r.returncode != 0:
                 return {"id": v["id"], "status": "skipped", "why": "patch does not apply: " + (r.stdout + r.stderr)[:200]}
-            expect = "break"
+            expect = "break" if kind == "seeded" else "neutral"
             want_rule = None
         else:
             why = _apply_edit(base, v)
@@ -146,7 +158,9 @@ def _run_one(job):
 def run_for(prop, repo_root, seed=0, jobs=None):
     variants = load_variants(prop)
     seeded = load_seeded(prop)
-    work = [("variant", v, repo_root, prop) for v in variants] + [("seeded", s, repo_root, prop) for s in seeded]
+    neutral = load_neutral_patches(prop)
+    work = [("variant", v, repo_root, prop) for v in variants] + [("seeded", s, repo_root, prop) for s in seeded] + \
+           [("neutralpatch", v, repo_root, prop) for v in neutral]
     random.Random(seed).shuffle(work)
     results = []
     if work:
@@ -156,7 +170,7 @@ def run_for(prop, repo_root, seed=0, jobs=None):
                 results = pool.map(_run_one, work, chunksize=1)
         else:
             results = [_run_one(w) for w in work]
-    summary = {"variants": len(variants), "seeded": len(seeded),
+    summary = {"variants": len(variants), "seeded": len(seeded), "neutral_patches": len(neutral),
                "detected": sum(1 for r in results if r["status"] == "detected"),
                "silent": sum(1 for r in results if r["status"] == "silent"),
                "skipped": sum(1 for r in results if r["status"] == "skipped"),
@@ -178,8 +192,8 @@ def main(argv=None):
     for p in props:
         st = run_for(p, a.repo)
         s = st["summary"]
-        print("%s: variants=%d seeded=%d detected=%d silent=%d skipped=%d failed=%d"
-              % (p, s["variants"], s["seeded"], s["detected"], s["silent"], s["skipped"], s["failed"]))
+        print("%s: variants=%d seeded=%d neutral-patches=%d detected=%d silent=%d skipped=%d failed=%d"
+              % (p, s["variants"], s["seeded"], s["neutral_patches"], s["detected"], s["silent"], s["skipped"], s["failed"]))
         for r in s["results"]:
             if r["status"] in ("skipped",):
                 print("   skipped %s: %s" % (r["id"], r.get("why")))
